@@ -214,3 +214,77 @@ CONTRACTS += [
              ensures=[('share-a-character',
                        'result == (max(self.start, other.start) <= min(self.start + self.length - 1, other.start + other.length - 1))')]),
 ]
+
+BMP = DT + 'base_merged.py::BaseMergedParser.'
+_VAL = Rec(DT + 'utilities.py::DateTimeResolutionResult', dict(mod=Str(), sub_date_time_entities=Const([])))
+_DTPR = Rec(DT + 'parsers.py::DateTimeParseResult', dict(start=Int(), length=Int(), text=Str(), type=Str(), data=Const(None), meta_data=Const(None),
+                                                         value=_VAL, resolution_str=Const(None), timex_str=Str()))
+_MD = Rec(RT + 'meta_data.py::MetaData', dict(has_mod=Const(True)))
+_MOD_POST = [('span-of-the-entity-is-restored', 'result.start == old(source).start and result.length == old(source).length'),
+             ('text-of-the-entity-is-restored', 'result.text == old(source).text')]
+
+
+# a modifier found by match_begin at the very start of the text / after white space only (prefix modifiers: no culture of this
+# port sets check_both_before_after, so the entity text never carries a suffix modifier); the matched text does not occur earlier
+_LEAD = {'mode': 'match', 'assume': 'M.start() == 0'}
+_BLANK_BEFORE = {'mode': 'match', 'assume': 'text.index(M.group()) == M.start() and text[0:M.start()].strip() == ""'}
+
+
+def _merged_parser(cid, env, note, post=None):
+    base = {'before_regex': 'none', 'after_regex': 'none', 'since_regex': 'none', 'around_regex': 'none', 'equal_regex': 'none',
+            'suffix_after': 'none', 'year_regex': 'none'}
+    base.update(env)
+    return Contract(cid, BMP + 'parse', ['C01'], modular=['id:c01.env.parse_result', 'id:c01.env.set_parse_result'],
+                    params=dict(self=Rec(DT + 'base_merged.py::BaseMergedParser', dict(config=Config(), options=Const(0))),
+                                source=Rec(RT + 'extractor.py::ExtractResult',
+                                           dict(start=Int(0), length=Int(1), text=Str(), type=Const('datetimeV2.duration'), data=Const(None),
+                                                meta_data=_MD)),
+                                reference=DateTime()),
+                    requires=['source.length == len(source.text)'],
+                    regex_env=base, ensures=post or _MOD_POST, note=note)
+
+
+CONTRACTS += [
+    Contract('c01.env.parse_result', BMP + 'parse_result', ['C01'], returns=_DTPR,
+             params=dict(self=Opaque(), source=Opaque(), reference=Opaque()),
+             ensures=[('sub-parser-keeps-the-span-it-was-given',
+                       'result.start == source.start and result.length == source.length and result.text == source.text')],
+             assumed='the sub-parsers copy the span of the extract result they are given (their own contracts: ParseResult(source))'),
+    Contract('c01.env.set_parse_result', BMP + 'set_parse_result', ['C01'], returns=Expr('slot'),
+             params=dict(self=Opaque(), slot=Opaque(), has_before=Opaque(), has_after=Opaque(), has_since=Opaque()), ensures=[],
+             assumed='resolution assembly does not touch start / length / text of the slot (it assigns value and type only)'),
+    _merged_parser('c01.merged_parser.mod.before', {'before_regex': [_LEAD, 'none']},
+                   'a leading before-modifier (match at offset 0 of the entity text) is cut off for the sub-parser and put back'),
+    _merged_parser('c01.merged_parser.mod.after', {'after_regex': [_LEAD, 'none']}, 'a leading after-modifier'),
+    _merged_parser('c01.merged_parser.mod.since', {'since_regex': [_LEAD, 'none']}, 'a leading since-modifier'),
+    _merged_parser('c01.merged_parser.mod.before_around', {'before_regex': [_LEAD, 'none'], 'around_regex': [_BLANK_BEFORE, 'none']},
+                   'a leading before-modifier followed by an approximation word ("before about ..."), any white space between them; '
+                   'the text clause (a three-part concatenation of slices) is left out: both solvers time out on it', post=_MOD_POST[:1]),
+    _merged_parser('c01.merged_parser.mod.around', {'around_regex': [_LEAD, 'none']}, 'a leading approximation word'),
+]
+
+# ---- C12: the suffix modifier ("3 pm or later on monday") is not absorbed when another entity follows it
+_AFTER = 'source[old(e0).start + old(e0).length:].strip()'
+_MLEN = '(env_matches("suffix_after_regex")[0].end() - env_matches("suffix_after_regex")[0].start())'
+CONTRACTS += [
+    Contract('c12.env.try_merge_modifier_token', BMEX + 'try_merge_modifier_token', ['C12'], returns=Bool(),
+             params=dict(self=Opaque(), extract_result=Opaque(), pattern=Opaque(), source=Opaque(), potential_ambiguity=Opaque()),
+             ensures=[('nothing-merged', 'result == False')],
+             assumed='no prefix modifier stands in front of the two entities of the add_mod contract (prefix merging has its own '
+                     'contract c01.try_merge_modifier_token)'),
+    Contract('c12.add_mod.suffix_followed_by_entity', BMEX + 'add_mod', ['C12'], modular=['id:c12.env.try_merge_modifier_token'],
+             params=dict(self=Rec(DT + 'base_merged.py::BaseMergedExtractor', dict(config=Config(), options=Const(0))),
+                         source=Str(),
+                         e0=Rec(RT + 'extractor.py::ExtractResult', dict(start=Int(0), length=Int(1), text=Str(), type=Const('time'),
+                                                                        data=Const(None), meta_data=Const(None))),
+                         e1=Rec(RT + 'extractor.py::ExtractResult', dict(start=Int(0), length=Int(1), text=Str(), type=Const('duration'),
+                                                                        data=Const(None), meta_data=Const(None))),
+                         extract_results=Expr('[e0, e1]')),
+             requires=['e0.start + e0.length <= e1.start', 'e1.start + e1.length <= len(source)', 'len(e1.text) >= 1'],
+             regex_env={'suffix_after_regex': {'mode': 'match', 'assume': 'M.start() == 0'}},
+             ensures=[('a-suffix-modifier-followed-by-the-next-entity-is-not-absorbed',
+                       f'implies(len(env_matches("suffix_after_regex")) == 1 and {_MLEN} != len({_AFTER}.strip()) and {_AFTER}.strip()[{_MLEN}:].strip().startswith(e1.text), '
+                       'e0.length == old(e0).length and e0.start == old(e0).start)'),
+                      ('the-other-entity-is-untouched', 'e1.start == old(e1).start and e1.length == old(e1).length')],
+             note='two entities in order; the suffix-after pattern matches at the start of the text after the first one'),
+]
